@@ -185,7 +185,15 @@ func analyseKinds(c *Ctx, fn *ssa.Function) (map[ssa.Value]kind, []kindIssue) {
 		issues = append(issues, kindIssue{pos, k, what})
 	}
 	le := newLinEnv(linOpts{pathLoads: true})
-	name := func(v ssa.Value) string { return le.pretty(le.norm(stripNarrow(v))) }
+	name := func(v ssa.Value) string {
+		v = stripNarrow(v)
+		if u, ok := v.(*ssa.UnOp); ok && u.Op == token.MUL {
+			if tp := typedPath(u.X); tp != "" {
+				return "+" + tp // keyed by type path: neutral to renaming of the variable
+			}
+		}
+		return le.pretty(le.norm(v))
+	}
 	for _, b := range fn.Blocks {
 		for _, ins := range b.Instrs {
 			switch x := ins.(type) {
@@ -283,11 +291,11 @@ var sigOffset = map[string]bool{}
 
 // named exceptions: construct -> reason
 var c11Exceptions = map[string]string{
-	"ParseNameAddrPVal:pos-vs-const:+pfrom.Params.Offs==+0":  "'start of params not known yet': a parameter byte is always preceded by ';', so a real start is >= 1 at any start offset",
-	"ParseNameAddrPVal:pos-vs-const:+pfrom.Params.Offs!=+0":  "same test at end of header",
+	"ParseNameAddrPVal:pos-vs-const:+PFromBody.Params.Offs==+0":  "'start of params not known yet': a parameter byte is always preceded by ';', so a real start is >= 1 at any start offset",
+	"ParseNameAddrPVal:pos-vs-const:+PFromBody.Params.Offs!=+0":  "same test at end of header",
 	"ParseSIPMsg:buf-slice:+0#2":                             "same (second definitive return)",
 	"ParseSIPMsg:buf-slice:+0":                               "msg.Buf deliberately keeps the buffer from index 0 (fields are absolute offsets into it); RawMsg is the view that starts at the message",
-	"ParseCSeqVal:return-offset:+pcs.CSeq.Offs":              "error offset points back at the offending field (a position read from a positional field)",
+	"ParseCSeqVal:return-offset:+PCSeqBody.CSeq.Offs":              "error offset points back at the offending field (a position read from a positional field)",
 }
 
 func ruleC11(c *Ctx) {
